@@ -14,7 +14,18 @@ EXHAUSTIVE = {}
 from C10 import canon as _c10canon
 
 
+def gen_codec(rng, tier):
+    """the bincode bytes a record is spilled as, and their deserialization (field-for-field)"""
+    import textgen as T
+    n = 300 if tier == 'quick' else 8000
+    for _ in range(n):
+        t = rng.choice(T.TYPES)
+        r = T.rand_record(rng, t)
+        yield Case(sx.dump(['ser', t, r]), t not in ('gr', 'bed3'), 'codec-' + t)
+
+
 def gen(rng, tier):
+    yield from gen_codec(rng, tier)
     yield from gen_recs(rng, tier)
     yield from gen_two(rng, tier)
     n = 250 if tier == 'quick' else 6000
